@@ -3,7 +3,7 @@
 import json, os
 V = os.path.dirname(os.path.dirname(os.path.abspath(__file__)))
 props = [json.loads(l) for l in open(os.path.join(V, 'properties.jsonl'))]
-BK = 'shadow-symbolic execution of the LLVM IR of the real code (fpsym) + z3 per path class; plus ir2c (LLVM IR -> C) + CBMC bit-precise bounded checking of the 1-D leaf kernels for all point indexes / levels within the unwinding bound'
+BK = 'shadow-symbolic execution of the LLVM IR of the real code (fpsym) + z3 per path class; plus ir2c (LLVM IR -> C) + CBMC bit-precise bounded checking of leaf kernels (1-D rules / meta tables / sorted index-set algebra) for all indexes, levels or set contents within the stated sizes and unwinding bound'
 B = 'shadow-symbolic execution of the LLVM IR of the real code (fpsym) + z3 (QF_LRA / interval relaxation / QF_NRA) per path class, solver-enumerated path classes'
 CLAIMS = {
  'C01': dict(engine='fpsym+ir2c', text='bounded symbolic execution of the real load/refine/construct/evaluate call tree with every model value symbolic; each reproduction obligation is decided by z3 for all value arrays of the path class',
@@ -20,8 +20,8 @@ CLAIMS = {
              note='reals instead of doubles; class interiors only (kinks and support edges are class boundaries); orders -1,1..5; dims<=3; <= 120 cells per configuration; Wavelet with concrete values; conformal maps excluded', tech=B),
  'C06': dict(engine='fpsym', text='binary write/read round trips of grids with symbolic values through the real stream code: shadows travel on a byte-offset tape, every observable of the restored grid is compared as an expression (z3), structure, byte identity of the second generation, stream consumption and behaviour of further operations are checked',
              note='binary format only (ASCII is an un-counted concrete sanity pass: libstdc++ number formatting is not encoded); stringstream entry point; seven history classes; dims<=3; Wavelet with concrete values; primitive-level CBMC harnesses for IO::* not built', tech=B),
- 'C07': dict(engine='fpsym', text='operation sequences of the real refinement/load/merge/clear API run with coordinate-tagged symbolic values, symbolic tolerances and scale corrections; value association is decided as symbol identity by z3, set invariants and the classic-criterion oracle are checked on every solver-constructed path class',
-             note='reals instead of doubles; sequences of <= 5 operations enumerated as configurations; dims<=3, depth<=3; budgeted classes; Wavelet with concrete values; classic oracle only for Local Polynomial', tech=B),
+ 'C07': dict(engine='fpsym+ir2c', text='operation sequences of the real refinement/load/merge/clear API run with coordinate-tagged symbolic values, symbolic tolerances and scale corrections; value association is decided as symbol identity by z3, set invariants and the classic-criterion oracle are checked on every solver-constructed path class; the sorted multi-index set algebra underneath (merge, difference, binary search, removal, sort+unique, value merge of tsgIndexSets.cpp) is decided bit-precisely by CBMC for all sorted sets of the enumerated sizes',
+             note='reals instead of doubles; sequences of <= 5 operations enumerated as configurations; dims<=3, depth<=3; budgeted classes; Wavelet with concrete values; classic oracle only for Local Polynomial; engine K: set sizes <= 3x3 (2-D), 4x4 (1-D), entries in a small range, unwinding assertions on', tech=BK),
  'C08': dict(engine='fpsym+ir2c', text='level-limit vectors are derived from symbolic reals so z3 enumerates (and certifies) all vectors in {-1,0,1,2}^d; on each class the real make/update/refine/candidate calls run, every point must lie within the limits in force, limits must persist, and every call must return within the time bound',
              note='solver-certified enumeration of a small discrete box (not a for-all over reals); dims 2 (3 once); <= 4 calls; 30 s termination bound; limits introduced later than make are only claimed when not below levels already present', tech=BK),
  'C09': dict(engine='fpsym', text='the real loadConstructedPoints is driven with the arrival order and batch cuts of the whole target set derived from symbolic priorities/flags and with symbolic values; z3 enumerates permutation x partition classes and decides value identity and equality with the one-batch surrogate for all values in each class',
